@@ -402,6 +402,77 @@ theorem parEpoch_guarantees (X H : List (Genome W)) (o : EpochOpts W) (generatio
     · intro g hg
       exact GenomeIn.mono (hX g hg) ⟨_, rfl⟩
 
+/-! ### any number of parallel epochs, with arbitrary evaluations in between -/
+
+/-- `k` generations of the parallel executor: evaluate, turn over under a schedule, evaluate, … -/
+def parEpochs (o : EpochOpts W) : List (ParSchedule × (Pop W → Pop W)) → Int → Pop W → Rand (Pop W)
+  | [], _, p, rs => .ok (p, rs)
+  | (ps, ev) :: rest, gen, p, rs =>
+    match parEpoch o gen (ev p) ps rs with
+    | .error e => .error e
+    | .ok (p', rs') => parEpochs o rest (gen + 1) p' rs'
+
+/-- what an evaluation between two epochs may not change: which organisms exist and where, the species' ids / ages / flags
+    (`C02.SameShape`), the registry, and the genomes -/
+def EvalOk (ev : Pop W → Pop W) : Prop :=
+  ∀ p, C02.SameShape p (ev p) ∧ (ev p).reg = p.reg ∧ GenomesSub (ev p).species p.species
+
+/-- the invariants of C02, C01 and C03 together -/
+structure ParInv (X H : List (Genome W)) (p : Pop W) : Prop where
+  uid : C02.UidInv p
+  spid : C02.SpIdInv p
+  pool : PoolOk p.reg (X ++ genomesOfPop p)
+  c03 : PopC03 H p
+  hX : ∀ g ∈ X, GenomeIn H g
+
+theorem ParInv.eval {X H : List (Genome W)} {p : Pop W} (h : ParInv X H p) {ev : Pop W → Pop W} (he : EvalOk ev) :
+    ParInv X H (ev p) := by
+  obtain ⟨hsh, hreg, hsub⟩ := he p
+  obtain ⟨u, sp⟩ := C02.sameShape_inv p (ev p) hsh h.uid h.spid
+  refine ⟨u, sp, ?_, ⟨hreg ▸ h.c03.inv, ?_, by rw [hreg]; exact h.c03.norec⟩, h.hX⟩
+  · rw [hreg]
+    apply h.pool.subset
+    intro g hg
+    rcases List.mem_append.mp hg with hx | hg
+    · exact List.mem_append_left _ hx
+    · obtain ⟨s, hs', x, hx, rfl⟩ := mem_genomesOfPop.mp hg
+      obtain ⟨s0, hs0, y, hy, e⟩ := hsub s hs' x hx
+      exact List.mem_append_right _ (mem_genomesOfPop.mpr ⟨s0, hs0, y, hy, e⟩)
+  · intro s hs' x hx
+    obtain ⟨s0, hs0, y, hy, e⟩ := hsub s hs' x hx
+    rw [← e]; exact h.c03.cov s0 hs0 y hy
+
+/-- **C16, any number of epochs of the parallel executor.** From a population that satisfies the invariants, after any
+    number of generations - whatever the evaluations assign, whatever the schedules, the random numbers of the
+    goroutines and the orders of arrival - the invariants hold again for a history that extends the old one: so every
+    genome is well-formed, the population has exactly its species partition with unique ids, and an innovation number
+    denotes one connection across all genomes of all generations. -/
+theorem parEpochs_guarantees (X : List (Genome W)) (o : EpochOpts W) (runs : List (ParSchedule × (Pop W → Pop W))) :
+    ∀ (H : List (Genome W)) (generation : Int) (p p' : Pop W) (rs rs' : List Nat), ParInv X H p →
+      (∀ r ∈ runs, EvalOk r.2) → parEpochs o runs generation p rs = .ok (p', rs') →
+      ∃ H', Ext H H' ∧ ParInv X H' p' ∧ (∀ g ∈ genomesOfPop p', WFT g) ∧ CtrLe p.reg p'.reg := by
+  induction runs with
+  | nil =>
+    intro H generation p p' rs rs' hinv _ h
+    simp only [parEpochs, Except.ok.injEq, Prod.mk.injEq] at h
+    obtain ⟨rfl, _⟩ := h
+    exact ⟨H, Ext.refl H, hinv, fun g hg => (hinv.pool g (List.mem_append_right _ hg)).wft, CtrLe.refl _⟩
+  | cons r rest ih =>
+    intro H generation p p' rs rs' hinv hev h
+    obtain ⟨ps, ev⟩ := r
+    unfold parEpochs at h
+    split at h
+    · cases h
+    · rename_i p1 rs1 hep
+      have hinv' := hinv.eval (hev (ps, ev) List.mem_cons_self)
+      obtain ⟨⟨_, _, _, _, _, _, u1, s1⟩, ⟨_, pool1⟩, H1, e1, c1, ctr1, hX1⟩ :=
+        parEpoch_guarantees X H o generation (ev p) p1 ps rs rs1 hinv'.uid hinv'.spid hinv'.pool hinv'.c03 hinv'.hX hep
+      obtain ⟨H2, e2, inv2, w2, ctr2⟩ := ih H1 (generation + 1) p1 p' rs1 rs' ⟨u1, s1, pool1, c1, hX1⟩
+        (fun r hr => hev r (List.mem_cons_of_mem _ hr)) h
+      refine ⟨H2, e1.trans e2, inv2, w2, ?_⟩
+      have hreg := (hev (ps, ev) List.mem_cons_self p).2.1
+      exact CtrLe.trans (by rw [← hreg]; exact ctr1) ctr2
+
 /-! ### non-vacuity and the counterexample -/
 
 section Examples
@@ -453,6 +524,54 @@ theorem consecutive_breaks :
 /-- … although, run alone, it computes exactly what the atomic model computes -/
 example : packM ((Legacy.mutateAddNodeP_consecutive ev2 mo [2, 2, 2]).run evReg) = mutateAddNode ev2 evReg mo [2, 2, 2] := by
   rfl
+
+/-! a whole parallel epoch: two species of two organisms each, every baby gets an add-node mutation, the registry
+    operations of the two goroutines alternate, the second goroutine's result arrives first -/
+def eo : EpochOpts Int :=
+  { popSize := 4, dropOffAge := 15, ageSignificance := 1, survivalThresh := 1, babiesStolen := 0, compatThreshold := 3,
+    compat := ⟨1, 1, 1, false⟩, mutateOnlyProb := 100, mutateAddNodeProb := 100, mutateAddLinkProb := 0, mutateConnectSensors := 0,
+    interspeciesMateRate := 0, mateMultipointProb := 0, mateMultipointAvgProb := 0, mateSinglepointProb := 0, mateOnlyProb := 0,
+    mopts := C01.mo }
+
+def mkOrg (uid : Nat) (g : Genome Int) (fit : Int) : Org Int :=
+  { uid := uid, fitness := fit, genome := g, expectedOffspring := 0, generation := 1, originalFitness := 0, highestFitness := 0 }
+
+def popE : Pop Int :=
+  { species := [{ id := 1, age := 1, maxFitnessEver := 0, expectedOffspring := 0, isNovel := false, ageOfLastImprovement := 0,
+                  orgs := [mkOrg 0 ev1 2, mkOrg 1 { ev1 with id := 2 } 2] },
+                { id := 2, age := 1, maxFitnessEver := 0, expectedOffspring := 0, isNovel := false, ageOfLastImprovement := 0,
+                  orgs := [mkOrg 2 ev2 2, mkOrg 3 { ev2 with id := 4 } 2] }],
+    organisms := [0, 1, 2, 3], lastSpecies := 2, highestFitness := 0, epochsHighestLastChanged := 0,
+    reg := { records := [], nextInn := 7, nextNode := 5 }, nextUid := 4 }
+
+def psE : ParSchedule :=
+  ⟨[List.replicate 30 2, List.replicate 30 2], [0,1,0,1,0,1,0,1,0,1,0,1,0,1,0,1,0,1,0,1,0,1,0,1], [1, 0]⟩
+
+/-- one line per organism: species id, allocation id, genome id, the innovation numbers, 0, the node ids -/
+def popSummary (r : Except Stop (Pop Int × List Nat)) : Option (List (List Int) × List Nat × List Int) :=
+  match r with
+  | .error _ => none
+  | .ok (p, _) => some (p.species.flatMap (fun s => s.orgs.map (fun x =>
+                          [s.id, (x.uid : Int), x.genome.id] ++ x.genome.genes.map (·.inn) ++ [0] ++ x.genome.nodes.map (·.id))),
+                        p.organisms, [p.reg.nextInn, p.reg.nextNode, (p.nextUid : Int)])
+
+/-- the hypotheses of `parEpoch_guarantees` are satisfiable … -/
+theorem exParInv : ParInv [] [ev1, ev2] popE := by
+  refine ⟨⟨by decide, by decide⟩, ⟨by decide, by decide⟩, by decide, ⟨by decide, ?_, rfl⟩, by simp⟩
+  intro s hs o ho
+  simp only [popE, List.mem_cons, List.not_mem_nil, or_false] at hs
+  rcases hs with rfl | rfl <;> simp only [List.mem_cons, List.not_mem_nil, or_false] at ho <;> rcases ho with rfl | rfl
+  · exact GenomeIn.of_mem List.mem_cons_self
+  · exact AllB.same (GenomeIn.of_mem (H := [ev1, ev2]) List.mem_cons_self) ⟨rfl, rfl⟩
+  · exact GenomeIn.of_mem (List.mem_cons_of_mem _ List.mem_cons_self)
+  · exact AllB.same (GenomeIn.of_mem (H := [ev1, ev2]) (List.mem_cons_of_mem _ List.mem_cons_self)) ⟨rfl, rfl⟩
+
+/-- … and the epoch returns: in species 2 the first baby drew node 7 and numbers 9, 11 while species 1 drew 6 and 8, 10 for
+    the same split (two records); the later babies reuse the first record; four fresh objects 4…7 in two species -/
+example : popSummary (parEpoch eo 1 popE psE (List.replicate 30 2)) =
+    some ([[1, 6, 0, 1, 2, 4, 5, 6, 8, 10, 0, 1, 2, 3, 4, 6], [1, 7, 1, 1, 2, 4, 5, 6, 8, 10, 0, 1, 2, 3, 4, 6],
+           [2, 4, 2, 1, 2, 4, 5, 7, 9, 11, 0, 1, 2, 3, 4, 7], [2, 5, 3, 1, 2, 4, 5, 7, 8, 10, 0, 1, 2, 3, 4, 6]],
+          [6, 7, 4, 5], [11, 7, 8]) := by decide +kernel
 
 end Examples
 
